@@ -528,6 +528,8 @@ def exec_op(world: World, op):
     # `_merge_single_child` hands the child's measurement LIST OBJECT to the parent (and extends it in place): a
     # removed node that shares its list with a node of the tree is not an independent program any more
     live_lists = {id(m._measurements) for _p, m in world.nodes() if m._measurements is not None}
+    for st in world.stash:
+        live_lists.update(id(m._measurements) for _p, m in world.nodes(st) if m._measurements is not None)
     for n in gone:
         par = n.parent
         if par is not None and id(par) in gone_ids and any(c is n for c in par):
@@ -535,8 +537,10 @@ def exec_op(world: World, op):
         sub = [m for _p, m in world.nodes(n)]
         if any(id(m) in after for m in sub) or len(sub) != len({id(m) for m in sub}):
             continue        # gutted by _merge_single_child / shares nodes with the tree
-        if any(m._measurements is not None and id(m._measurements) in live_lists for m in sub):
-            continue        # shares a measurement list object with the tree
+        lists = [id(m._measurements) for m in sub if m._measurements is not None]
+        if any(i in live_lists for i in lists) or len(lists) != len(set(lists)):
+            continue        # shares a measurement list object with the tree, the stash, or a node removed with it
+        live_lists.update(lists)
         if all(c.parent is m for m in sub for c in m) and len(world.stash) < 6:
             world.stash.append(n)
     if out is not None and len(world.stash) < 6:
@@ -1449,6 +1453,8 @@ def run(ctx: core.Ctx):
         'smallest_factor_ge (sympy divisors) is modelled by its specification: the least divisor >= min_factor',
         'a volatile count is an expression: count*(-1)*(-1) evaluates to count, the model clamps after every factor; merges '
         'of a volatile count with a NEGATIVE integer count are not generated',
+        '_merge_single_child hands the child measurement LIST OBJECT on (also an empty one): removed nodes that share a list '
+        'object with the tree, the stash or each other are never re-used as arguments (the tree model has no list aliasing)',
         'input classes not generated: get_measurement_windows(drop=True) over measurements below a count <= 0 (numpy '
         'raises ValueError half-way) or producing more than 20000 windows (MemoryError with counts of 10^6), merging two volatile counts, directly or inside cleanup (PF-07/08), nodes carrying a '
         'waveform AND children for append_child / cleanup / roll_constant_waveforms (class docstring: either a waveform or children)',
